@@ -45,6 +45,21 @@ def error_exit(message):
     sys.exit(f"{sys.argv[0]}: {message}")
 
 
+def str_to_bool(value):
+    """
+    Convert the string given for a boolean command line option (e.g.
+    ``--erase-flanks False``) into a bool; used as an argparse ``type``.
+    """
+    if isinstance(value, bool):
+        return value
+    text = str(value).strip().lower()
+    if text in ("true", "t", "yes", "y", "1", "on"):
+        return True
+    if text in ("false", "f", "no", "n", "0", "off"):
+        return False
+    raise argparse.ArgumentTypeError(f"Expected a boolean value, not '{value}'")
+
+
 def setup_logging(args):
     log_level = "WARN"
     if args.verbosity > 0:
@@ -236,7 +251,7 @@ def tsdate_cli_parser():
     parser.add_argument(
         "--erase-flanks",
         "--trim_telomeres",
-        type=bool,
+        type=str_to_bool,
         help=(
             "Should all material before the first site and after the "
             "last site be trimmed, regardless of the length of these "
@@ -246,7 +261,7 @@ def tsdate_cli_parser():
     )
     parser.add_argument(
         "--split-disjoint",
-        type=bool,
+        type=str_to_bool,
         help=(
             "Should disjoint nodes, that disappear from the trees then "
             "reappear further along the genome, be split into separate nodes. "
@@ -324,7 +339,10 @@ def run_preprocess(args):
     except tskit.FileFormatError as ffe:
         error_exit(f"FileFormatError loading '{args.tree_sequence}: {ffe}")
     snipped_ts = tsdate.preprocess_ts(
-        ts, minimum_gap=args.minimum_gap, erase_flanks=args.erase_flanks
+        ts,
+        minimum_gap=args.minimum_gap,
+        erase_flanks=args.erase_flanks,
+        split_disjoint=args.split_disjoint,
     )
     snipped_ts.dump(args.output)
 
